@@ -98,8 +98,10 @@ def conc(c, v):
 class DC:
     """reference domain controller: endpoint mapper on 135, ISD_KEY interface on `port`"""
 
-    def __init__(self, c, w, script, hash_name, root, now, reply_kind, port, tag):
+    def __init__(self, c, w, script, hash_name, root, now, reply_kind, port, tag, want_pad=None):
         self.c, self.w, self.script, self.hash_name, self.root, self.now, self.reply_kind, self.port, self.tag = c, w, script, hash_name, root, now, reply_kind, port, tag
+        self.want_pad = want_pad
+        self.reply_pads = []
         self.connections = []  # (host, port)
         self.sent = []  # every PDU the client sent, in order, as (connection index, bytes)
         self.getkey_requests = []
@@ -267,8 +269,15 @@ class DC:
         else:
             q0, q1, q2 = conc(c, l0), conc(c, l1), conc(c, l2)
         rk = uuid.UUID(bytes_le=bytes(rkid)) if rkid is not None else e2e.RK
-        env = self.envelope(bytes(sd) if not isinstance(sd, V.SymSeq) or sd.concrete() else sd, rk, q0, q1, q2)
-        reply = refs.ref_getkey_response(env, 0)
+        sdv = bytes(sd) if not isinstance(sd, V.SymSeq) or sd.concrete() else sd
+        # the domain name length decides the reply length: pick it so that the sealed reply needs the wanted auth padding (0, 4, 8 or 12)
+        for extra in range(8):
+            self.domain = "domain.test" + "x" * extra
+            env = self.envelope(sdv, rk, q0, q1, q2)
+            reply = refs.ref_getkey_response(env, 0)
+            if self.want_pad is None or (-len(reply)) % 16 == self.want_pad:
+                break
+        self.reply_pads.append((-len(reply)) % 16)
         return self.response(conn, reply, conn.ctx)
 
     def envelope(self, sd, rk, l0, l1, l2):
@@ -279,7 +288,7 @@ class DC:
                 l1k, l2k = chain_l1[l1], b""
             else:
                 l1k, l2k = (chain_l1[l1 - 1] if l1 > 0 else b""), l2key(l1, l2)
-            return refs.ref_group_key_envelope(1, 2, l0, l1, l2, rk.bytes_le, "SP800_108_CTR_HMAC", kdfp, "DH", self.secret_params("DH"), 512, 2048, "domain.test", "forest.test", l1k, l2k)
+            return refs.ref_group_key_envelope(1, 2, l0, l1, l2, rk.bytes_le, "SP800_108_CTR_HMAC", kdfp, "DH", self.secret_params("DH"), 512, 2048, self.domain, "forest.test", l1k, l2k)
         alg = self.reply_kind  # DH / ECDH_P256 / ECDH_P384: the caller may only encrypt: group public key
         seed = l2key(l1, l2)
         priv_bits = {"DH": 512, "ECDH_P256": 256, "ECDH_P384": 384}[alg]
@@ -296,7 +305,7 @@ class DC:
             el = self.w.algebra._ec_element(cname, ("G", "G"), [x])
             pub = refs.ref_ecdh_key(alg[-4:], priv_bits // 8, el["x"], el["y"])
             publen = priv_bits
-        return refs.ref_group_key_envelope(1, 3, l0, l1, l2, rk.bytes_le, "SP800_108_CTR_HMAC", kdfp, alg, self.secret_params(alg), priv_bits, publen, "domain.test", "forest.test", b"", pub)
+        return refs.ref_group_key_envelope(1, 3, l0, l1, l2, rk.bytes_le, "SP800_108_CTR_HMAC", kdfp, alg, self.secret_params(alg), priv_bits, publen, self.domain, "forest.test", b"", pub)
 
     def secret_params(self, alg):
         if alg != "DH":
@@ -365,8 +374,8 @@ class Conn:
         self.closed = True
 
 
-def _run(c, w, script, flavour, op, hash_name, root, now, reply_kind, port, blob, pt, sid, rk_given, cache):
-    dc = DC(c, w, script, hash_name, root, now, reply_kind, port, flavour[0] + "_")
+def _run(c, w, script, flavour, op, hash_name, root, now, reply_kind, port, blob, pt, sid, rk_given, cache, want_pad=None):
+    dc = DC(c, w, script, hash_name, root, now, reply_kind, port, flavour[0] + "_", want_pad)
     dc.conns = []
 
     def create_connection(addr, timeout=None, **kw):
@@ -418,26 +427,27 @@ def _params(tier):
     out = []
     kinds = ["seed", "DH", "ECDH_P256", "ECDH_P384"]
     if tier == "quick":
-        out.append(dict(op="unprotect", hash_name="SHA512", reply_kind="seed", sid=1, rk=True))
-        out.append(dict(op="protect", hash_name="SHA256", reply_kind="seed", sid=0, rk=False))
-        out.append(dict(op="protect", hash_name="SHA1", reply_kind="ECDH_P256", sid=2, rk=True))
-        out.append(dict(op="protect", hash_name="SHA384", reply_kind="DH", sid=3, rk=False))
+        out.append(dict(op="unprotect", hash_name="SHA512", reply_kind="seed", sid=1, rk=True, pad=0))
+        out.append(dict(op="protect", hash_name="SHA256", reply_kind="seed", sid=0, rk=False, pad=4))
+        out.append(dict(op="protect", hash_name="SHA1", reply_kind="ECDH_P256", sid=2, rk=True, pad=8))
+        out.append(dict(op="protect", hash_name="SHA384", reply_kind="DH", sid=3, rk=False, pad=12))
+        out.append(dict(op="protect", hash_name="SHA512", reply_kind="seed", sid=4, rk=True, pad=0))
         return out
     for i, h in enumerate(HASHES):
         for j, k in enumerate(kinds):
-            out.append(dict(op="protect", hash_name=h, reply_kind=k, sid=(i + j) % 5, rk=bool((i + j) % 2)))
+            out.append(dict(op="protect", hash_name=h, reply_kind=k, sid=(i + j) % 5, rk=bool((i + j) % 2), pad=4 * ((i + j) % 4)))
         for s in range(5):
-            out.append(dict(op="unprotect", hash_name=h, reply_kind="seed", sid=s, rk=True))
+            out.append(dict(op="unprotect", hash_name=h, reply_kind="seed", sid=s, rk=True, pad=4 * ((i + s) % 4)))
     return out
 
 
 @harness(P, params=_params, max_steps=6000000, raises=(ValueError,),
          bounds="one online unprotect (blob at a solver-chosen position (L1,L2) of a 3x3 corner of the lattice incl. L2=31 and L1=0, seed-key reply) or protect (DC 'now' at a listed "
          "position; seed-key reply or DH / ECDH_P256 / ECDH_P384 public-key reply; root key id given or not) against the reference DC, run through the sync API and the async API in the same "
-         "path; 4 hashes; 5 SID shapes (SD lengths with different residues mod 8); endpoint-mapper port symbolic 16-bit (not 135); 2 authentication legs; an ephemeral EC scalar outside [1, n-1] makes the EC library raise ValueError (allowed)",
+         "path; 4 hashes; 5 SID shapes (SD lengths with different residues mod 8); domain name length chosen by the DC so that the sealed reply needs 0 / 4 / 8 / 12 bytes of auth padding; endpoint-mapper port symbolic 16-bit (not 135); 2 authentication legs; an ephemeral EC scalar outside [1, n-1] makes the EC library raise ValueError (allowed)",
          outside="other positions (C02 covers the derivation for every position), other numbers of authentication legs (C15), fragmented replies (C14)",
          must_reach=("the DC saw a conforming conversation", "the request names exactly the key the blob / the caller asked for", "result is correct", "sync and async conduct the same conversation"))
-def online(c, op, hash_name, reply_kind, sid, rk):
+def online(c, op, hash_name, reply_kind, sid, rk, pad):
     port = c.int("isd_key_port", 1, 65535)
     c.assume(port != 135)  # 135 is the endpoint mapper itself
     lo, _ = e2e.window(361, 9, 6, -5, -5)
@@ -472,7 +482,7 @@ def online(c, op, hash_name, reply_kind, sid, rk):
     sd_ref = _blob.SIDDescriptor(sidstr).get_target_sd()
     runs = {}
     for flavour in ("sync", "async"):
-        dc, stubs = _run(c, w, script, flavour, op, hash_name, root, now, reply_kind, port, blob, pt, sidstr, rk, None)
+        dc, stubs = _run(c, w, script, flavour, op, hash_name, root, now, reply_kind, port, blob, pt, sidstr, rk, None, want_pad=pad)
         holder["cur"] = {"create_connection": stubs[0][1], "open_connection": stubs[1][1], "spnego_client": stubs[3][1]}
         cache = dpapi_ng.KeyCache()
         kw = dict(server="dc01.domain.test", username="user", password="pass", auth_protocol="negotiate", cache=cache)
@@ -495,7 +505,7 @@ def online(c, op, hash_name, reply_kind, sid, rk):
                                       public_key_length={"seed": 2048, "DH": 2048, "ECDH_P256": 256, "ECDH_P384": 384}[reply_kind])
             back = c.call(dpapi_ng.ncrypt_unprotect_secret, out, cache=oracle)
             ok = all_of([seq_eq(back, pt), y.key_identifier.l0 == now[0], y.key_identifier.l1 == now[1], y.key_identifier.l2 == now[2],
-                         y.key_identifier.is_public_key == (reply_kind != "seed"), y.key_identifier.domain_name == "domain.test", y.key_identifier.forest_name == "forest.test"])
+                         y.key_identifier.is_public_key == (reply_kind != "seed"), y.key_identifier.domain_name == dc.domain, y.key_identifier.forest_name == "forest.test"])
         c.check(ok, "result is correct")
         c.check(all_of([x[0] if isinstance(x[0], (bool, V.SymBool)) else bool(x[0]) for x in dc.findings] or [True]), "the DC saw a conforming conversation")
         c.check(len(dc.connections) == 2 and dc.connections[0] == ("dc01.domain.test", 135) and dc.connections[1][0] == "dc01.domain.test" and truth(dc.connections[1][1] == port)
@@ -511,6 +521,7 @@ def online(c, op, hash_name, reply_kind, sid, rk):
         c.check(want, "the request names exactly the key the blob / the caller asked for")
         kinds = [b[2] for _, b in dc.sent]
         c.check(kinds == [11, 0, 11, 14, 0], "conversation: bind, ept_map | bind, alter_context, GetKey")
+        c.check(dc.reply_pads == [pad], f"the sealed GetKey reply carried {pad} bytes of auth padding (reply length residue exercised)")
         runs[flavour] = dc
     a, b = runs["sync"].sent, runs["async"].sent
     c.check(len(a) == len(b) and all(x[0] == y_[0] for x, y_ in zip(a, b)) and truth(all_of([seq_eq(x[1], y_[1]) for x, y_ in zip(a, b)])),
